@@ -670,19 +670,27 @@ def hand_docs(tier='quick'):
                      matrix_doc([r2 if v else r1, 'b: ' + ANYX % 'B', 'include: [{zz: 1}]'], e.replace('R', r)))
 
     # workflow_dispatch input typed vs untyped
-    def dispatch(ty):
+    def dispatch(ty, dflt=None, also_call=None):
         def build(v, e):
             d = Doc()
             d.add('on:')
+            if also_call is not None:
+                # both triggers: UpdateInputs (workflow_call) then UpdateDispatchInputs merge into one `inputs`
+                d.add('  workflow_call:')
+                for ln in also_call:
+                    d.add('    ' + ln)
             d.add('  workflow_dispatch:')
             d.add('    inputs:')
             d.add('      x:')
             d.add('        description: d' if v else '        type: ' + ty)
             if ty == 'choice':
                 d.add('        options: [p, q]' if not v else '        required: false')
+            if dflt is not None:
+                d.add('        default: ' + dflt)
             d.add('jobs:')
             d.add('  j:')
             d.site('    runs-on: ', e)
+            d.site('    env: ', e)                  # a position that needs an object
             d.add('    steps:')
             use_sites(d, e, '      ')
             d.add('  k:')
@@ -690,11 +698,20 @@ def hand_docs(tier='quick'):
             return d
         return build
     for ty in ('string', 'boolean', 'number', 'choice', 'environment'):
-        for root in ('inputs.x', 'inputs'):
-            both('dispatch-input-' + ty, lambda v, e, b=dispatch(ty), r=root: b(v, e.replace('R', r)))
+        for dflt in (None, 'x', '5', 'true'):
+            for root in ('inputs.x', 'inputs'):
+                if dflt is not None and root == 'inputs' and ty not in ('number', 'boolean'):
+                    continue
+                both('dispatch-input-%s%s' % (ty, '' if dflt is None else '-default-' + dflt),
+                     lambda v, e, b=dispatch(ty, dflt), r=root: b(v, e.replace('R', r)))
+    # both workflow_call and workflow_dispatch: the dispatch input loosened while workflow_call contributes inputs
+    for call in (['inputs:', '  w:', '    type: string'], ['inputs:', '  x:', '    type: number'], ['secrets: {}']):
+        for ty in ('string', 'number', 'boolean'):
+            for root in ('inputs.x', 'inputs.w', 'inputs'):
+                both('both-triggers-' + ty, lambda v, e, b=dispatch(ty, None, call), r=root: b(v, e.replace('R', r)))
 
     # workflow_call input typed vs untyped (the parser demands `type`; only expression diagnostics are compared)
-    def wcall(ty):
+    def wcall(ty, dflt=None):
         def build(v, e):
             d = Doc()
             d.add('on:')
@@ -702,6 +719,8 @@ def hand_docs(tier='quick'):
             d.add('    inputs:')
             d.add('      x:')
             d.add('        description: d' if v else '        type: ' + ty)
+            if dflt is not None:
+                d.add('        default: ' + dflt)
             # typed defaults of later inputs may refer to the input
             d.add('      y:')
             d.add('        type: boolean')
@@ -712,6 +731,7 @@ def hand_docs(tier='quick'):
             d.add('jobs:')
             d.add('  j:')
             d.site('    runs-on: ', e)
+            d.site('    env: ', e)
             d.add('    steps:')
             use_sites(d, e, '      ')
             d.add('  k:')
@@ -719,7 +739,9 @@ def hand_docs(tier='quick'):
             return d
         return build
     for ty in ('string', 'boolean', 'number'):
-        both('call-input-' + ty, lambda v, e, b=wcall(ty): b(v, e.replace('R', 'inputs.x')))
+        for dflt in (None, 'x', '5', 'true'):
+            both('call-input-%s%s' % (ty, '' if dflt is None else '-default-' + dflt),
+                 lambda v, e, b=wcall(ty, dflt): b(v, e.replace('R', 'inputs.x')))
 
     # fromJSON literal -> fromJSON(env.X)
     for lit in ('{"a":1}', '[{"a":1}]', '{"a":{"b":"x"}}', '[1,2]', '"s"', 'null', '{"a":1,"b":2}', '[]'):
